@@ -322,7 +322,36 @@ DI_REFS = [(n, "!0 = " + t + "\n" + FOOT + DI_EXTRA, fr) for n, t, fr in [
     ("DIObjCProperty.refs", '!DIObjCProperty(name: "p", file: !90, type: !92)', ["file: !90", "type: !92"]),
 ]]
 
-DI = [(n, "!0 = " + t + "\n" + FOOT, fr) for n, t, fr in DI_RAW + DI_BOUNDS] + [
+# boolean fields that are TRUE when absent in LLVM (isDefinition of DIGlobalVariable / DISubprogram, splitDebugInlining of DICompileUnit): absent, true and
+# false must each keep their meaning (an omitted `false` is read back by LLVM as true); spFlags takes precedence over isDefinition
+DI_DEFAULTS = [
+    ("DIGlobalVariable.isDefinition-false", 'distinct !DIGlobalVariable(name: "g", isLocal: false, isDefinition: false)', ["isDefinition: false"]),
+    ("DIGlobalVariable.isDefinition-true", 'distinct !DIGlobalVariable(name: "g", isLocal: true, isDefinition: true)', ["isLocal: true", "isDefinition: true"]),
+    ("DIGlobalVariable.isDefinition-absent", 'distinct !DIGlobalVariable(name: "g")', ["isDefinition: true"]),
+    ("DICompileUnit.splitDebugInlining-false2", 'distinct !DICompileUnit(language: DW_LANG_C99, file: !90, splitDebugInlining: false)', ["splitDebugInlining: false"]),
+    ("DICompileUnit.splitDebugInlining-true", 'distinct !DICompileUnit(language: DW_LANG_C99, file: !90, splitDebugInlining: true)', ["file: !90"]),
+    ("DICompileUnit.splitDebugInlining-absent", 'distinct !DICompileUnit(language: DW_LANG_C99, file: !90)', ["file: !90"]),
+    ("DISubprogram.distinct-isDefinition-false", 'distinct !DISubprogram(name: "k", isDefinition: false)', ["isDefinition: false"]),
+    ("DISubprogram.distinct-spFlags-zero", 'distinct !DISubprogram(name: "k", spFlags: 0)', ["isDefinition: false"]),
+    ("DISubprogram.distinct-absent", 'distinct !DISubprogram(name: "k")', ["isDefinition: true"]),
+    ("DISubprogram.distinct-spFlags-definition", 'distinct !DISubprogram(name: "k", spFlags: DISPFlagDefinition)', ["spFlags: DISPFlagDefinition"]),
+    ("DISubprogram.plain-isDefinition-false", '!DISubprogram(name: "k", isDefinition: false)', ["isDefinition: false"]),
+    ("DISubprogram.plain-spFlags-optimized", '!DISubprogram(name: "k", spFlags: DISPFlagOptimized)', ["spFlags: DISPFlagOptimized"]),
+    # enum-valued fields given as a NUMBER that has no keyword: printed as that number
+    ("DIBasicType.encoding-number", '!DIBasicType(name: "x", size: 32, encoding: 200)', ["encoding: 200"]),
+    ("DIStringType.encoding-number", '!DIStringType(name: "s", size: 32, encoding: 129)', ["encoding: 129"]),
+    ("DICompileUnit.language-number", 'distinct !DICompileUnit(language: 200, file: !90)', ["language: 200"]),
+    ("DISubroutineType.cc-number", '!DISubroutineType(cc: 200, types: !93)', ["cc: 200"]),
+    ("DIMacro.type-number", '!DIMacro(type: 200, line: 1, name: "N", value: "1")', ["type: 200"]),
+    # zero VALUES of fields that take a reference or an integer: an explicit 0 is a different node than an absent field
+    ("DISubrange.lowerBound-zero", '!DISubrange(count: 3, lowerBound: 0)', ["count: 3, lowerBound: 0"]),
+    ("DISubrange.count-zero", '!DISubrange(count: 0)', ["count: 0"]),
+    ("DISubrange.upperBound-zero", '!DISubrange(lowerBound: 0, upperBound: 0, stride: 0)', ["lowerBound: 0, upperBound: 0, stride: 0"]),
+    ("DIStringType.both-lengths", '!DIStringType(name: "s", stringLength: !96, stringLengthExpression: !DIExpression(), size: 8)', ["stringLength: !96", "stringLengthExpression: !DIExpression()"]),
+    ("DIStringType.both-lengths-reversed", '!DIStringType(name: "s", stringLengthExpression: !DIExpression(), stringLength: !96, size: 8)', ["stringLength: !96", "stringLengthExpression: !DIExpression()"]),
+]
+
+DI = [(n, "!0 = " + t + "\n" + FOOT, fr) for n, t, fr in DI_RAW + DI_BOUNDS + DI_DEFAULTS] + [
     # the same specialised nodes written INLINE as a tuple operand (not a numbered definition): printed in place, never as `!N`
     (n + ".inline", "!0 = !{" + t + "}\n" + FOOT, fr + ["!{" + t.split("(")[0] + "("]) for n, t, fr in DI_RAW if not t.startswith("distinct ")] + [
     ] + [
@@ -337,6 +366,8 @@ DI = [(n, "!0 = " + t + "\n" + FOOT, fr) for n, t, fr in DI_RAW + DI_BOUNDS] + [
     ("DIGlobalVariableExpression.numbered-expr", "!0 = !DIGlobalVariableExpression(var: !96, expr: !97)\n" + FOOT + "!97 = !DIExpression(DW_OP_deref)\n", ["var: !96", "expr: !97", "!97 = !DIExpression(DW_OP_deref)"]),
     ("md.numbered-diexpression-in-tuple", "!0 = !{!97, !97}\n!97 = !DIExpression(DW_OP_plus_uconst, 3)\n", ["!0 = !{!97, !97}"]),
     ("md.attachments-multi", "@g = global i32 0, !a !0, !b !1\n\n!0 = !{}\n!1 = !{}\n", ["!a !0", "!b !1"]),
+    ("ifunc.expression-resolver", "@i = ifunc void (), bitcast (i8* ()* @r to void ()* ()*)\n@k = ifunc i32 (i32), i32 (i32)* ()* bitcast (i8* ()* @r to i32 (i32)* ()*)\n\ndefine i8* @r() {\n\tret i8* null\n}\n",
+     ["@i = ifunc void (), void ()* ()* bitcast (i8* ()* @r to void ()* ()*)", "@k = ifunc i32 (i32), i32 (i32)* ()* bitcast (i8* ()* @r to i32 (i32)* ()*)"]),
     ("uselistorder", "@g = global i32 0\n@p = global i32* @g\n@q = global i32* @g\n\nuselistorder i32* @g, { 1, 0 }\n", ["uselistorder i32* @g, { 1, 0 }"]),
     ("uselistorder_bb", "define void @f() {\nb:\n\tbr label %b\n}\n\nuselistorder_bb @f, %b, { 1, 0 }\n", ["uselistorder_bb @f, %b, { 1, 0 }"]),
 ]
